@@ -340,21 +340,49 @@ func cellsOf(v value) []value {
 	return v.([]value)
 }
 
-func symFmt(format string, args []value, fr *frame) value {
+// symFmt is the engine's fmt.Sprintf.  The format itself may hold symbolic
+// bytes (caller data that reached a Printf-style function as the format): each
+// such byte is either '%' - decided by the solver, the verb bytes after it are
+// then concretised - or a literal that is copied through symbolically.
+func symFmt(formatV value, args []value, fr *frame) value {
+	fc, _ := strCells(formatV)
+	format := append([]value{}, fc...)
+	at := func(i int) byte {
+		switch c := format[i].(type) {
+		case byte:
+			return c
+		case sym:
+			b := byte(ex.concretize(c))
+			format[i] = b
+			return b
+		}
+		panic(abortPath{fmt.Sprintf("engine: format cell %T", format[i])})
+	}
 	var out []value
 	ai := 0
 	for i := 0; i < len(format); i++ {
-		if format[i] != '%' {
+		if sc, ok := format[i].(sym); ok {
+			if !ex.decide(sym{t: fmt.Sprintf("(= %s #x25)", sc.t)}) {
+				out = append(out, sc)
+				continue
+			}
+		} else if at(i) != '%' {
 			out = append(out, format[i])
 			continue
 		}
 		i++
 		spec := "%"
-		for i < len(format) && strings.IndexByte("0123456789.+-# ", format[i]) >= 0 {
-			spec += string(format[i])
+		for i < len(format) && strings.IndexByte("0123456789.+-# ", at(i)) >= 0 {
+			spec += string(at(i))
 			i++
 		}
-		verb := format[i]
+		if i >= len(format) {
+			for _, b := range []byte("%!(NOVERB)") {
+				out = append(out, b)
+			}
+			break
+		}
+		verb := at(i)
 		if verb == '%' {
 			out = append(out, byte('%'))
 			continue
